@@ -332,11 +332,17 @@ class PrettyContext:
         return id(value) in self.visited
 
 
+def _printer_name(pretty_fn):
+    # Any callable may be registered: callable objects and
+    # functools.partial objects have no __qualname__.
+    try:
+        return '{}.{}'.format(pretty_fn.__module__, pretty_fn.__qualname__)
+    except AttributeError:
+        return repr(pretty_fn)
+
+
 def _warn_about_bad_printer(pretty_fn, value, exc):
-    fnname = '{}.{}'.format(
-        pretty_fn.__module__,
-        pretty_fn.__qualname__
-    )
+    fnname = _printer_name(pretty_fn)
     warnings.warn(
         "The pretty printer for {}, {}, raised an exception. "
         "Falling back to default repr.\n\n{}".format(
@@ -368,10 +374,7 @@ def _run_pretty(pretty_fn, value, ctx, trailing_comment=None):
             try:
                 sig.bind(value, ctx, trailing_comment=trailing_comment)
             except TypeError:
-                fnname = '{}.{}'.format(
-                    pretty_fn.__module__,
-                    pretty_fn.__qualname__
-                )
+                fnname = _printer_name(pretty_fn)
                 warnings.warn(
                     "The pretty printer for {}, {}, does not support rendering "
                     "trailing comments. It will not show up in output.".format(
@@ -402,10 +405,7 @@ def _run_pretty(pretty_fn, value, ctx, trailing_comment=None):
         isinstance(doc, str) or
         isinstance(doc, Doc)
     ):
-        fnname = '{}.{}'.format(
-            pretty_fn.__module__,
-            pretty_fn.__qualname__
-        )
+        fnname = _printer_name(pretty_fn)
         raise ValueError(
             'Functions decorated with register_pretty must return '
             'an instance of str or Doc. {} returned '
